@@ -230,11 +230,11 @@ def table_tasks(quick: bool) -> list[dict]:
 
     if quick:
         return [{"gas_values": gv(0.55, 400.0), "dryness": "dry gas"},
-                {"gas_values": gv(0.65, 200.0, 0.03, 0.012, 0.018), "dryness": "dry gas"},
+                {"gas_values": gv(0.65, 285.21375, 0.03, 0.012, 0.018), "dryness": "dry gas"},   # reservoir temperatures are real numbers
                 {"gas_values": gv(1.2, 80.0), "dryness": "wet gas"}]
     out = []
     for g in (0.55, 0.6, 0.65, 0.7, 0.8, 0.9, 1.0, 1.1, 1.2):
-        for t in (80.0, 120.0, 200.0, 300.0, 400.0):
+        for t in (80.0, 120.75, 200.0, 299.9, 400.0):
             out.append({"gas_values": gv(g, t), "dryness": "wet gas"})
             out.append({"gas_values": gv(g, t, 0.03, 0.012, 0.018) if g >= 0.65 else gv(g, t), "dryness": "dry gas"})
     return out
